@@ -173,7 +173,7 @@ static void pick_offset_params(Rng& r, int64_t ext, int nverts, double& delta, d
   if (arc > 1e-12 && ad > 0) {
     double tol = std::min(ad, arc);
     double steps360 = std::min(3.14159265358979 / std::acos(1 - tol / ad), ad * 3.14159265358979);
-    double budget = 200000.0 / std::max(1, nverts);
+    double budget = 50000.0 / std::max(1, nverts);
     if (steps360 > budget) arc = 0;              // fall back to the library default (about 50 steps per circle)
   }
 }
